@@ -23,6 +23,8 @@ PLAN = {
     # per seeded change (overrides the per-property default)
     "C01b": ["C01", "C10", "C03"], "C05b": ["C05", "C14"], "C14b": ["C14", "C05"], "C20b": ["C20", "C12"],
     "C10b": ["C10"], "C06b": ["C06"], "C08b": ["C08"], "C03b": ["C03", "C04"],
+    "C01c": ["C01", "C08", "C03"], "C03c": ["C03", "C17", "C01"], "C05c": ["C05", "C14"], "C06c": ["C06", "C04", "C09"],
+    "C13c": ["C13", "C12"], "C12": ["C12"],
 }
 
 
